@@ -27,9 +27,17 @@ EX = {
 OBJECTIVE = {"BIO": 1.0}
 
 
+class _Tolerances:
+    def __init__(self):
+        self.feasibility, self.optimality, self.integrality = TOL, TOL, 1e-5
+
+
 class _Tol:
-    class tolerances:
-        feasibility = TOL
+    """solver.configuration: one per model, so that a change that is left behind shows."""
+
+    def __init__(self):
+        self.tolerances = _Tolerances()
+        self.verbosity, self.timeout, self.presolve = 0, None, "auto"
 
 
 class _Met:
@@ -37,7 +45,7 @@ class _Met:
         self.id = mid
 
 
-NATIVE = NATIVE + (_Tol, _Tol.tolerances, _Met)
+NATIVE = NATIVE + (_Tol, _Tolerances, _Met)
 
 
 def _model(feasible: bool) -> ModelLP:
@@ -47,13 +55,17 @@ def _model(feasible: bool) -> ModelLP:
         r.boundary = True
         r.reactants = [_Met(rid[3:])] if as_reactant else []
         r.products = [] if as_reactant else [_Met(rid[3:])]
+        # exchanges need not be written with a unit coefficient (`2 a_e <=>`): the medium is about fluxes
+        k = 2.0 if rid in ("EX_b", "EX_f") else 1.0
+        r.metabolites = {(r.reactants or r.products)[0]: (-k if as_reactant else k)}
         rxns.append(r)
     for r in rxns[:2]:
         r.reactants, r.products = [_Met("x")], [_Met("y")]
+        r.metabolites = {r.reactants[0]: -1.0, r.products[0]: 1.0}
     m = ModelLP(rxns, OBJECTIVE, "max")
     m.exchanges = [r for r in rxns if r.id.startswith("EX_")]
     m.original_bounds = {r.id: (r.lower_bound, r.upper_bound) for r in rxns}
-    m.solver.configuration = _Tol
+    m.solver.configuration = _Tol()
     m.solver.update = lambda: None
     log: List[Formulation] = []
 
@@ -199,6 +211,9 @@ def check_minimal_medium(ctx, rule: str) -> None:
                         got_med = dict(zip(out.index, out.values))
                         if got_med != want_med:
                             problems.setdefault("medium", f"{what}: returns {got_med}; the import fluxes of the solver's answer are {want_med}" + (" (exports as negative entries)" if exports else ""))
+                    tl = model.solver.configuration.tolerances
+                    if (tl.feasibility, tl.optimality, tl.integrality) != (TOL, TOL, 1e-5):
+                        problems.setdefault("restore", f"{what}: the solver's tolerances are left changed (feasibility {tl.feasibility:g}, integrality {tl.integrality:g}): later analyses of the model run under another configuration than the one model.tolerance reports")
                     if model._stack or any((r.lower_bound, r.upper_bound) != model.original_bounds[r.id] for r in model.reactions) or model.solver.objective.name != "original_objective" or model.solver.constraints.items or model.solver.objective.direction != "max":
                         problems.setdefault("restore", f"{what}: the model is left modified")
     # ---- alternative media: every column has the smallest possible number of components
@@ -303,6 +318,31 @@ def check_medium_property(ctx, rule: str) -> None:
         back = {k: float(x) for k, x in back.items()}
     if back != want_back:
         problems.append(f"reading the medium back gives {back}, expected exactly the entries with positive import {want_back}")
+    # the empty medium (also what minimal_medium returns for a target of zero): every import is closed
+    rx2 = []
+    for rid, (as_reactant, b, _) in MED.items():
+        r = RxnLP(rid, *b)
+        r.boundary = True
+        r.reactants = [_Met(rid[3:])] if as_reactant else []
+        r.products = [] if as_reactant else [_Met(rid[3:])]
+        rx2.append(r)
+    model2 = ModelLP(rx2, {"EX_a": 1.0})
+    model2.exchanges = list(rx2)
+    model2.boundary = list(rx2)
+    model2.sinks, model2.demands = [], []
+    for empty, label in (({}, "{}"), (Ser([], []), "an empty series")):
+        for r, (rid, (as_reactant, b, _)) in zip(rx2, MED.items()):
+            r.lower_bound, r.upper_bound = b
+        it2 = Interp(prog, NATIVE, [], {}, globals_={})
+        try:
+            _run("Model.medium setter (empty medium)", lambda: it2.call(setter, [empty], {}, selfobj=model2))
+            back2 = _run("Model.medium getter", lambda: it2.call(getter, [], {}, selfobj=model2))
+        except EvalRaise as exc:
+            problems.append(f"assigning {label} as the medium raises {exc.exc_type}")
+            continue
+        still = [r.id for r, (rid, (as_reactant, b, _)) in zip(rx2, MED.items()) if (max(-r.lower_bound, 0.0) if as_reactant else max(r.upper_bound, 0.0)) > 0 and not ((as_reactant and b[1] < 0) or (not as_reactant and b[0] > 0))]
+        if still or (isinstance(back2, dict) and back2):
+            problems.append(f"assigning {label} as the medium leaves the import of {still[:3]} open (reading it back gives {back2}): an empty medium closes every import")
     if problems:
         ctx.bad(rule, setter, "medium assignment", "; ".join(problems[:2]))
     else:
